@@ -10,7 +10,8 @@ import time
 VERIF = os.path.dirname(os.path.dirname(os.path.abspath(__file__)))
 EXTRA = {"C12-1": ["C11"], "C11-2": ["C02"], "C10-2": ["C01"], "C06-2": ["C15"], "C15-1": ["C06"], "C04-2": ["C10"], "C01-1": ["C15", "C06"], "C13-1": ["C04"],
          "C09-2": [], "C07-4": ["C09"], "C03-6": ["C04", "C06"], "C07-5": ["C16"], "C13-6": ["C16"], "C12-6": ["C04"], "C15-5": ["C06"], "C08-5": ["C16"], "C01-5": ["C06", "C16"], "C01-6": ["C02"], "C02-6": ["C16"], "C04-6": ["C16"], "C05-6": ["C02"], "C09-5": ["C02"], "C09-6": ["C16"], "C10-6": ["C16"], "C16-2": ["C06"], "C14-2": ["C03"], "C03-1": ["C14"], "C05-2": ["C04"], "C08-1": ["C09"], "C02-1": ["C03"],
-         "C07-7": ["C09"], "C08-7": ["C02"], "C05-7": ["C06"], "C10-7": ["C09"], "C16-7": ["C12"]}
+         "C07-7": ["C09"], "C08-7": ["C02"], "C05-7": ["C06"], "C10-7": ["C09"], "C16-7": ["C12"],
+         "C07-8": ["C08"], "C06-8": ["C15"], "C10-8": ["C01"]}
 
 
 def main():
